@@ -16,10 +16,8 @@ META = {
     'decides': 'for every NUL-terminated message of any length: all reads stay inside it; the bytes written are the message '
                'bytes in order plus one inserted space per empty line; no empty line is written before the whole message has '
                'been written; the output ends with the empty terminator line and only newlines follow it',
-    'not_decided': 'number round trip ({:.16} formatting in fmt vs strtod), counts line, vectors, suffix sections (fmt / C++ '
-                   'templates); the reader side of the message is covered by C14.ReadSOLFile (memory safety) - that its loop stops '
-                   'at the first empty line is read off its text, not proved here',
-    'not_under_contract': ['mp::WriteSolFile', 'internal::WriteSuffixes / SuffixValueWriter', 'fmt number formatting'],
+    'not_decided': "number formatting itself ({:.16} in fmt vs strtod: DBL_MAX is printed rounded up and read back as Infinity - observation in DESIGN.md 9.5), the binary .sol form (no binary writer in the library), two recorded known findings (fewer than 3 options; vbtol form); the reader's memory safety is C14",
+    'not_under_contract': ['fmt number formatting', 'SolutionAdapter accessors (C10)', 'the SOLHandler implementation'],
     'assumptions': ['fputc / fwrite always succeed and write exactly the bytes passed (ghost output model)'],
     'trusted_base': ['ghost output model in specs/C05.py'],
 }
